@@ -1,3 +1,3 @@
 CONSTANTS MaxN = 4 MaxOut = 2
 SPECIFICATION Spec
-INVARIANT OutputInOrder NoStartAfterBroken StopsAtFirstNonOk ExcIsFirstFail
+INVARIANT OutputInOrder NoStartAfterBroken StopsAtFirstNonOk ExcIsFirstFail RefAgrees
